@@ -98,6 +98,7 @@ const (
 	kFront skind = iota // first element of list li
 	kMid                // second element of list li when it has >= 3 elements
 	kBack               // last element of list li when it has >= 2 elements
+	kMid2               // last but one element of list li when it has >= 4 elements
 	kRoot               // the sentinel of list li
 	kDP                 // most recently popped/removed element that is still detached and valid
 	kDX                 // most recently dropped element
@@ -120,6 +121,8 @@ func (s sel) String() string {
 		return l + ".second"
 	case kBack:
 		return l + ".back"
+	case kMid2:
+		return l + ".lastbutone"
 	case kRoot:
 		return l + ".root"
 	case kDP:
@@ -165,6 +168,10 @@ func (w *lworld) resolve(s sel) (ref, bool) {
 	case kBack:
 		if len(q) >= 2 {
 			return ref{w.h[q[len(q)-1]], q[len(q)-1], s.li}, true
+		}
+	case kMid2:
+		if len(q) >= 4 {
+			return ref{w.h[q[len(q)-2]], q[len(q)-2], s.li}, true
 		}
 	case kRoot:
 		return ref{w.root(s.li), idRoot, s.li}, true
@@ -426,8 +433,35 @@ func (w *lworld) invariants() (oracle, info string) {
 			return "ok-mismatch", fmt.Sprintf("root of %c reports Ok()", 'A'+li)
 		}
 	}
+	// Look-ahead: the same property two operations later, at both ends. This
+	// runs last and only in the final state of a replay (successor states are
+	// rebuilt from scratch), so it cannot disturb the exploration; it pins a
+	// container that looks right but no longer accepts operations on the
+	// operation that broke it.
+	for li := 0; li < 2; li++ {
+		name, l, vs := string(rune('A'+li)), w.L[li], w.vals(li)
+		l.PushBack(probe)
+		if _, o, i := checkList(l, append(append([]int{}, vs...), probe), name+" after a further PushBack", false); o != "" {
+			return "not-usable-after", i
+		}
+		if e := l.PopBack(); !e.Ok() || e.Value() != probe || e.In(l) {
+			return "not-usable-after", fmt.Sprintf("%s: PushBack(%d) then PopBack() returned Ok=%v value=%d In=%v", name, probe, e.Ok(), e.Value(), e.In(l))
+		}
+		l.PushFront(probe)
+		if _, o, i := checkList(l, append([]int{probe}, vs...), name+" after a further PushFront", false); o != "" {
+			return "not-usable-after", i
+		}
+		if e := l.PopFront(); !e.Ok() || e.Value() != probe || e.In(l) {
+			return "not-usable-after", fmt.Sprintf("%s: PushFront(%d) then PopFront() returned Ok=%v value=%d In=%v", name, probe, e.Ok(), e.Value(), e.In(l))
+		}
+		if _, o, i := checkList(l, vs, name+" after push/pop at both ends", false); o != "" {
+			return "not-usable-after", i
+		}
+	}
 	return "", ""
 }
+
+const probe = 7
 
 func locName(loc int) string {
 	if loc < 0 {
@@ -779,6 +813,7 @@ func listAlphabet() []lop {
 	A, B := 0, 1
 	f := func(li int) sel { return sel{k: kFront, li: li} }
 	m := func(li int) sel { return sel{k: kMid, li: li} }
+	m2 := func(li int) sel { return sel{k: kMid2, li: li} }
 	b := func(li int) sel { return sel{k: kBack, li: li} }
 	rt := func(li int) sel { return sel{k: kRoot, li: li} }
 	dp, dx, nl := sel{k: kDP}, sel{k: kDX}, sel{k: kNil}
@@ -788,22 +823,24 @@ func listAlphabet() []lop {
 	for v := 1; v <= 3; v++ {
 		ops = append(ops, opPush(A, v, true), opPush(A, v, false))
 	}
-	ops = append(ops, opListAppend(A, 2, 1), opPush(B, 1, false), opPush(B, 2, false))
-	ops = append(ops, opPop(A, true), opPop(A, false), opPop(B, true))
+	ops = append(ops, opListAppend(A, 2, 1), opPush(B, 1, false), opPush(B, 2, false), opPush(B, 3, true))
+	ops = append(ops, opPop(A, true), opPop(A, false), opPop(B, true), opPop(B, false))
 	// Element.Append: new element at every position, re-append of a popped element, and everything that must be rejected
-	for _, r := range []sel{f(A), m(A), b(A), rt(A)} {
+	for _, r := range []sel{f(A), m(A), m2(A), b(A), rt(A), rt(B)} {
 		ops = append(ops, opElemAppend(r, nw(3)))
 	}
-	for _, r := range []sel{f(A), b(A), rt(A), f(B)} {
+	for _, r := range []sel{f(A), m(A), b(A), rt(A), f(B)} {
 		ops = append(ops, opElemAppend(r, dp))
 	}
 	ops = append(ops,
 		opElemAppend(dp, nw(3)), // detached receiver
 		opElemAppend(f(A), dx), opElemAppend(f(A), rt(A)), opElemAppend(f(A), nl), // invalid argument
-		opElemAppend(f(A), b(A)), opElemAppend(b(A), f(A)), opElemAppend(f(A), f(A)), opElemAppend(rt(A), f(A)), // member of the same list
-		opElemAppend(f(A), f(B)), opElemAppend(f(B), f(A)), // member of the other list
+		// member of the same list: successor, predecessor, self, distant, through the root
+		opElemAppend(f(A), b(A)), opElemAppend(b(A), f(A)), opElemAppend(f(A), f(A)), opElemAppend(rt(A), f(A)),
+		opElemAppend(f(A), m(A)), opElemAppend(m(A), f(A)), opElemAppend(rt(A), b(A)),
+		opElemAppend(f(A), f(B)), opElemAppend(f(B), f(A)), opElemAppend(rt(A), f(B)), // member of the other list
 	)
-	for _, s := range []sel{f(A), m(A), b(A), f(B), rt(A), dp} {
+	for _, s := range []sel{f(A), m(A), m2(A), b(A), f(B), b(B), rt(A), dp} {
 		ops = append(ops, opRemove(s, false))
 	}
 	for _, s := range []sel{f(A), m(A), b(A), rt(A)} {
@@ -812,7 +849,8 @@ func listAlphabet() []lop {
 	ops = append(ops, opSet(f(A), 3), opSet(m(A), 1), opSet(b(A), 2), opSet(rt(A), 1))
 	ops = append(ops,
 		opSwap(f(A), b(A)), opSwap(b(A), f(A)), opSwap(f(A), m(A)), opSwap(m(A), f(A)), opSwap(m(A), b(A)), opSwap(b(A), m(A)),
-		opSwap(rt(A), f(A)), opSwap(f(A), rt(A)), opSwap(rt(A), b(A)), opSwap(b(A), rt(A)),
+		opSwap(m(A), m2(A)), opSwap(m2(A), m(A)), opSwap(f(A), m2(A)), opSwap(m2(A), b(A)),
+		opSwap(rt(A), f(A)), opSwap(f(A), rt(A)), opSwap(rt(A), b(A)), opSwap(b(A), rt(A)), opSwap(rt(A), m(A)),
 		opSwap(f(A), f(A)), opSwap(f(A), f(B)), opSwap(f(B), f(A)), opSwap(f(A), rt(B)), opSwap(f(A), dp), opSwap(dp, f(A)), opSwap(f(A), nl),
 	)
 	ops = append(ops, opExtend(A, B), opExtend(B, A))
@@ -869,7 +907,7 @@ func listSpec(depth int, deadline time.Time) *seq.Spec {
 			}
 			return seq.Result{Fail: f, Info: info}
 		}
-		return seq.Result{Key: w.key()}
+		return seq.Result{Key: w.key() + unmerged(hist)}
 	}
 	return sp
 }
